@@ -100,7 +100,9 @@ class CHECK(core.Check):
             "body-less applications — (Content-Length given / chunked / streamed "
             "until close / empty / HTTPError before and after the first write / return value / empty yields / pieces "
             "exceeding Content-Length); sessions of 2-4 requests on one keep-alive connection whose methods, header sets "
-            "(growing and shrinking, auth/cookie/etag headers), query strings, bodies and content types differ; "
+            "(growing and shrinking, auth/cookie/etag headers), query strings, bodies and content types differ, "
+            "answered with bodies of 2-5000 bytes (Content-Length or chunked), the last request optionally `Connection: close`, "
+            "over server-side sockets that take only 7-1000 bytes per non-blocking send (or nothing every other time); "
             "~12% malformed stream (raw bytes to parseChunk, parseLeader, the request and "
             "response parsers). Non-trivial = a message was built and parsed back completely; distinct by content")
     TRUSTED = ["correspondence: the real packChunk/parseChunk/packHeader/parseLeader, Requester.build, Requestant, "
@@ -319,8 +321,20 @@ class CHECK(core.Check):
             elif rng.random() < 0.5:
                 r["headers"].append([rng.choice(["X-Auth-Token", "If-None-Match", "Cookie", "X-Trace"]), "s",
                                      rng.choice(["secret", "\"abc\"", "a=b; c=d", "1"])])
+            # the response the application gives: a body of `resp` bytes, with a Content-Length or chunked
+            r["resp"] = rng.choice([2, 2, 40, 700, 4000])
+            r["rcl"] = rng.random() < 0.5
             reqs.append(r)
-        return {"kind": "session", "scheme": rng.choice(["", "http"]), "requests": reqs}
+        case = {"kind": "session", "scheme": rng.choice(["", "http"]), "requests": reqs}
+        if rng.random() < 0.5:
+            # the last request asks for the connection to be closed after its response (a non-persistent request)
+            reqs[-1]["headers"] = [h for h in reqs[-1]["headers"] if h[0].lower() != "connection"] + [["Connection", "s", "close"]]
+        if rng.random() < 0.6:
+            # throttled server-side sockets: a non-blocking send takes `scap` bytes (and every other one nothing): responses
+            # larger than that need several service passes to go out — also the last one before the connection is closed
+            case["scap"] = rng.choice([7, 64, 300, 1000])
+            case["seagain"] = rng.random() < 0.3
+        return case
 
     def _anycase(self, rng, name):
         return "".join(c.upper() if rng.random() < 0.5 else c.lower() for c in name)
@@ -421,6 +435,20 @@ class CHECK(core.Check):
                     [head, rich, head]):
             for scheme in ("", "http"):
                 yield {"kind": "session", "scheme": scheme, "requests": [json.loads(json.dumps(r)) for r in seq]}
+        for scap in (None, 16, 500):
+            for eag in (False, True):
+                for size in (2, 900, 5000):
+                    for rcl in (True, False):
+                        for closing in (True, False):
+                            last = dict(bare, resp=size, rcl=rcl,
+                                        headers=[["Connection", "s", "close"]] if closing else [])
+                            c = {"kind": "session", "scheme": "http",
+                                 "requests": [json.loads(json.dumps(dict(rich, resp=300, rcl=True))), json.loads(json.dumps(last))]}
+                            if scap:
+                                c["scap"], c["seagain"] = scap, eag
+                            elif eag:
+                                continue
+                            yield c
         for m in METHODS:
             for mode in ("none", "body"):
                 yield {"kind": "request", "host": "a.test", "port": 80, "scheme": "http", "method": m, "path": "/p/é q",
@@ -646,6 +674,10 @@ class CHECK(core.Check):
                 keep.append((k, "b:" + hx(v.read())))
         return "ok %d%s" % (len(keep), "".join(" %s %s" % (hx(k), v) for k, v in keep))
 
+    @staticmethod
+    def _resp_body(i, n):
+        return bytes((i * 31 + j * 7 + 3) % 256 for j in range(n))
+
     def _run_session(self, case, lines, info):
         """the REAL Patron and the REAL Valet (Valet.serviceReqs / serviceReps, one Requestant and one Responder per
         connection, reused) over the socket-pair doubles: the requests go out one after the other on one keep-alive
@@ -655,6 +687,8 @@ class CHECK(core.Check):
         from ioflo.aid.odicting import odict
         seen = []                      # per application call: (parsed request line, environ line, snapshot)
         net = D.Net({"a.test": "10.0.0.1"})
+        if case.get("scap"):
+            net.server_send_cap, net.server_send_eagain = case["scap"], bool(case.get("seagain"))
 
         def app(environ, start_response):
             q = list(valet.reqs.values())[0]
@@ -662,8 +696,12 @@ class CHECK(core.Check):
             line = self._env_line(environ)
             snap["wsgi.input"] = hb(line.split(" b:")[1].split()[0]) if " b:" in line else b""
             seen.append((self._fmt_request(q), line, snap, dict(q.headers.items()), q.method, q.path, q.query, bytes(q.body)))
-            start_response("200 OK", [("Content-Length", "2")])
-            return [b"ok"]
+            r = case["requests"][len(seen) - 1] if len(seen) <= len(case["requests"]) else {}
+            body = self._resp_body(len(seen) - 1, r.get("resp", 2))
+            start_response("200 OK", [("Content-Length", str(len(body)))] if r.get("rcl", True) else [])
+            if q.method == "HEAD":         # headers as for GET, no body
+                return []
+            return [body[:len(body) // 2], body[len(body) // 2:]]
 
         with D.patched(net):
             S = D.server_class(net)
@@ -684,7 +722,10 @@ class CHECK(core.Check):
                         p.request(method=r["method"], path=r["path"], qargs=odict((k, v) for k, v in r["qargs"]), headers=hdrs,
                                   body=hb(r["body"]), data=r["data"] if r["has_data"] else None,
                                   fargs=None if r["fargs"] is None else odict((k, v) for k, v in r["fargs"]))
-                        for _ in range(12):
+                        rounds = 12
+                        if case.get("scap"):
+                            rounds += (2 if case.get("seagain") else 1) * ((r.get("resp", 2) + 400) // case["scap"] + 4)
+                        for _ in range(rounds):
                             p.serviceAll()
                             valet.serviceAll()
                             if len(p.responses) > n_resp:
@@ -700,7 +741,15 @@ class CHECK(core.Check):
                         lines += ["need", "need"]         # the server did not hand the request to the application
                         break
                     lines += [seen[-1][0], seen[-1][1]]
+                for _ in range(4):         # let a requested close happen
+                    try:
+                        valet.serviceAll()
+                        p.serviceAll()
+                    except OSError:
+                        break
                 info["sent"], info["seen"] = sent, seen
+                info["responses"] = [(x["status"], bytes(x["body"]), bool(x["errored"])) for x in p.responses]
+                info["server_open"] = len(valet.servant.ixes)
                 info["connections"] = len([e for e in net.log if e[0] == "CONNECT"])
             finally:
                 try:
@@ -1187,6 +1236,23 @@ class CHECK(core.Check):
             if stale:
                 return "request %d: environ carries %s, which this request did not send (an earlier request on the " \
                        "connection did)" % (i, stale)
+        # the responses: every one arrives complete — however many sends the server's socket needed, and also the one
+        # after which the server closes the connection (a response is delimited, never cut short by the close)
+        resps = info.get("responses") or []
+        for i, r in enumerate(case["requests"]):
+            want = b"" if r["method"].upper() == "HEAD" else self._resp_body(i, r.get("resp", 2))
+            if i >= len(resps):
+                return "the response to request %d (%d bytes, %s) never arrived complete; %d of %d responses delivered" % (
+                    i, len(want), "Content-Length" if r.get("rcl", True) else "chunked", len(resps), len(case["requests"]))
+            st, body, errored = resps[i]
+            if st != 200 or errored or body != want:
+                return "the response to request %d arrived as status %s, %d of %d body bytes, errored=%s" % (
+                    i, st, len(body), len(want), errored)
+        closing = any(h[0].lower() == "connection" and str(h[2]).lower() == "close" for h in case["requests"][-1]["headers"])
+        if closing and info.get("server_open"):
+            return "the last request asked for Connection: close but the server kept the connection"
+        if not closing and not info.get("server_open"):
+            return "the server closed a connection nobody asked it to close"
         return None
 
     def _oracle_response(self, case, out):
